@@ -24,8 +24,8 @@ EXPLANATION = "output invariants evaluated on every element of a bounded input/c
 
 def bounds(tier, seed):
     q = tier == "quick"
-    return {"y": "V^5 (lin), {0,1,3}^5 (exp)" if q else "V^5 and V^6 slices", "x_patterns": 2 if q else 4,
-            "n": [2, 3, 5, 8] if q else RC.NS_CORE + [64], "exps": [float(e) for e in RC.EXPS]}
+    return {"y": "V^5 (lin), {0,1,3}^5 (exp)" if q else "V^5 and V^6 slices", "x_patterns": 2 if q else 3,
+            "n": [2, 3, 5, 8] if q else [2, 3, 5, 8, 16, 64], "exps": [float(e) for e in RC.EXPS]}
 
 
 def replay(case):
@@ -82,8 +82,8 @@ def check_constant(case):
 
 def harnesses(tier, seed):
     quick = tier == "quick"
-    xpats = [W.XPATTERNS[0], W.XPATTERNS[1 + seed % 3]] if quick else W.XPATTERNS
-    ns = [2, 3, 5, 8] if quick else RC.NS_CORE + [64]
+    xpats = [W.XPATTERNS[0], W.XPATTERNS[1 + seed % 3]] if quick else W.XPATTERNS[:3]
+    ns = [2, 3, 5, 8] if quick else [2, 3, 5, 8, 16, 64]
     ys_lin = list(itertools.product(A.V, repeat=5))
     ys_exp = list(itertools.product((0, 1, 3), repeat=5)) if quick else ys_lin
 
